@@ -108,7 +108,7 @@ class InitHooks(Hooks):
         return frozenset(x for x in facts if not ((x[0] in ('obj', 'need', 'esc') and x[1] == K) or (x[0] == 'alias' and x[2] == K)))
 
     def _kill_var(self, facts, v):
-        pat = re.compile(r'(?<![A-Za-z0-9_.>])%s(?![A-Za-z0-9_])' % re.escape(v))
+        pat = re.compile(r'(?<![A-Za-z0-9_.>#])%s(?![A-Za-z0-9_#])' % re.escape(v))
         objs = [x[1] for x in facts if x[0] == 'obj' and pat.search(x[1])]
         for K in objs:
             # the name goes away: carry the object under another lvalue that holds it, if there is one
